@@ -189,10 +189,13 @@ func (c *CaveatSet) UnmarshalJSON(b []byte) error {
 	for i := range jcavs {
 		t := caveatTypeFromString(jcavs[i].Type)
 
-		c.Caveats[i] = typeToCaveat(t)
-		if err := json.Unmarshal(jcavs[i].Body, &c.Caveats[i]); err != nil {
+		// unmarshal into the typed value, not through the interface slot: a null
+		// body would otherwise replace the caveat by a nil interface
+		cav := typeToCaveat(t)
+		if err := json.Unmarshal(jcavs[i].Body, cav); err != nil {
 			return err
 		}
+		c.Caveats[i] = cav
 	}
 
 	return nil
